@@ -1219,6 +1219,17 @@ const INVALID: &[(&str, &str)] = &[
 	("register-as-constant", ".global R7;"),
 	("register-as-constant", ".global PRIMASK;"),
 	("register-as-constant", "pc:"),
+	("register-as-constant", ".const primask, 3;"),
+	("register-as-constant", ".const CONTROL, 1;"),
+	("register-as-constant", "control:"),
+	("register-as-constant", "Primask:"),
+	("register-as-constant", ".global control; .const control, 1;"),
+	("register-as-constant", ".const iepsr, 1;"),
+	("register-as-constant", ".const XPSR, 1;"),
+	("register-as-constant", ".const r12, 1;"),
+	("register-as-constant", "lr:"),
+	("register-as-constant", ".const msp, 1;"),
+	("register-as-constant", ".const apsr, 1;"),
 	("arity", ".du8;"),
 	("arity", ".du8 1, 2;"),
 	("arity", "NOP 1;"),
